@@ -108,6 +108,28 @@ def verdict (viol : Option String) (modelOut implOut : List String) (j : J) : St
     if modelOut = implOut then "OK" ++ tags j
     else "DIFF model=" ++ ",".intercalate modelOut
 
+/-- Removal while a slow resolution is in flight. The model's Remove is atomic and stops the poller whatever the
+    resolver is doing, so the expected observations do not depend on the timing parameters: they are those of the
+    model history `[add, remove, add, remove]` (pollers after the first removal, after re-adding), plus the
+    specification's "not polled any more" (`late=0`) and "one poller polls once" (`streams2=1`). -/
+def slowVerdict (rmTok rm2Tok : String) (out : List String) : String :=
+  let s1 := afterR true [.add 0 .ok, .remove 0]
+  let r2 := runR true s1 [.add 0 .ok]
+  let r3 := runR true r2.1 [.remove 0]
+  let showRm (r : List Res) : String :=
+    match r with
+    | [.removed] => if rmTok = "rm" then "t" else "ok"
+    | _ => "?"
+  let modelOut := [s!"{rmTok}={showRm (runR true (afterR true [.add 0 .ok]) [.remove 0]).2}",
+    s!"pollers={pollers s1}", "late=0",
+    s!"readd={match r2.2 with | [.add .ok _] => "ok" | _ => "?"}", s!"pollers2={pollers r2.1}", "streams2=1",
+    s!"{rm2Tok}={showRm r3.2}", "leak=0"]
+  match judgeSlow out with
+  | some v => s!"VIOL {v} model={" ".intercalate modelOut}"
+  | none =>
+    if out = modelOut then "OK nt b=remove-while-resolving"
+    else "DIFF model=" ++ ",".intercalate modelOut
+
 /-- `rr <cfg> <op>… => <tok>… w=<n> n=<n> alive=<ids> leak=<n>`  and
     `pool <cfg> <op>… => <tok>… alive=<ids> leak=<n>` -/
 def handle : Handler
@@ -146,6 +168,8 @@ def handle : Handler
     else
       let bad := out.filter (fun t => !expect.contains t)
       s!"VIOL concurrent-pool:{",".intercalate bad} model={" ".intercalate expect}"
+  | "slowrr" :: _params, out => slowVerdict "rm" "rm2" out
+  | "slowres" :: _params, out => slowVerdict "close" "close2" out
   | _, _ => "BAD c16 line"
 
 end GB.C16
